@@ -48,6 +48,29 @@ _AREA_ZIP = '''    for i, (f1, f2) in enumerate(zip(Freq[:-1], Freq[1:])):
     return _area
 '''
 
+_AREA_VECTOR = '''    for k in range(Freq.size - 1):
+        fa, fb = Freq[k], Freq[k + 1]
+        pa, pb = PSD[k], PSD[k + 1]
+        slope = np.log(pb / pa) / np.log(fb / fa)
+        special = np.abs(slope + 1.0) < 1e-5
+        _area += np.where(special, pa * fa * np.log(fb / fa), (fb * pb - fa * pa) / (slope + 1.0))
+    return _area
+'''
+
+_RC_LOOP = '''    cal = np.zeros((len(FL), cols))
+    cau = np.zeros((len(FL), cols))
+    for i in range(cols):
+        # with np.interp, interpolating cumulative area beyond end
+        # points will take the end value -- that's perfect here: 0's
+        # on the front, total area on the back
+        cal[:, i] = np.interp(FL, Fa, ca[:, i])
+        cau[:, i] = np.interp(FU, Fa, ca[:, i])
+'''
+
+_RC_COMP = '''    cal = np.column_stack([np.interp(FL, Fa, c) for c in ca.T])
+    cau = np.array([np.interp(x=FU, xp=Fa, fp=ca[:, i]) for i in range(cols)]).T
+'''
+
 _INTERP_LOG = '''        psdfull = ifunc(np.log(freq))
         pv = (freq >= Freq[0]) & (freq <= Freq[-1])
         psdfull[pv] = np.exp(psdfull[pv])
@@ -118,6 +141,13 @@ RECIPES = [
     ("C19", "neutral", [], D, _RS_LAG, _RS_LAG_STOP, "resample: explicit stop M + ln p of the retained slice"),
     ("C19", "neutral", [], P, _RC_CLAMP, _RC_CLAMP_MAX, "rescale: outer edges clamped with max / np.minimum"),
     ("C19", "neutral", [], P, "    psdoct = ms * (1 / (FU - FL).reshape(-1, 1))", "    psdoct = ms / (FU - FL)[:, np.newaxis]", "rescale: division by the column of widths"),
+    ("C19", "neutral", [], P, _AREA_LOOPS, _AREA_VECTOR, "area: all columns at once (rows of the PSD array, np.where for the selector)"),
+    ("C19", "neutral", [], P, _RC_LOOP, _RC_COMP, "rescale: the two column loops as comprehensions (column_stack / array(...).T), keyword arguments"),
+    ("C19", "neutral", [], D, "    m = np.mean(data, axis=-1, keepdims=True)", "    m = data.mean(-1)[..., None]", "resample: mean along the last axis with a new trailing axis"),
+    ("C19", "neutral", [], D, "    w = signal.windows.kaiser(M + 1, beta)", "    w = signal.kaiser(M + 1, beta=beta)", "resample: window through another import path, keyword argument"),
+    ("C19", "neutral", [], D, "    n = int(np.ceil(ln * p / q))", "    n = -(-ln * p // q)", "resample: ceiling division idiom"),
+    ("C19", "neutral", [], D, "        shape[-1] = ln * p\n        updata1 = np.zeros(shape)", "        updata1 = np.zeros((*data.shape[:-1], ln * p))", "resample: shape of the stuffed array as a tuple display"),
+    ("C19", "neutral", [], P, "    _area = np.zeros(PSD.shape[1])", "    _area = np.zeros_like(PSD[0])", "area: accumulator created with zeros_like of a row"),
     # ------------------------------------------------------------------ break: re-expressed / new obligations
     ("C19", "break", ["C19-R1"], P, "    _area = np.zeros(PSD.shape[1])", "    _area = np.ones(PSD.shape[1])", "area accumulator does not start from zero"),
     ("C19", "break", ["C19-R1"], P, "            p2 = PSD[i + 1, j]", "            p2 = PSD[i + 1, 0]", "area: end point taken from another column"),
@@ -135,6 +165,9 @@ RECIPES = [
     ("C19", "break", ["C19-R3"], D, "    updata = updata[..., M:]\n", "    updata = updata[..., nz:]\n", "resample: only the padding removed, not the FIR delay"),
     ("C19", "break", ["C19-R4"], P, "        cal[:, i] = np.interp(FL, Fa, ca[:, i])", "        cal[:, i] = np.interp(FL, Fa, ca[:, 0])", "rescale: lower edges always use the first column's curve"),
     ("C19", "break", ["C19-R4"], P, "        FL[0] = fl\n", "        pass\n", "rescale: nominal lower edge not restored"),
+    ("C19", "break", ["C19-R4"], P, "    ca = np.vstack((np.zeros((1, cols)), np.cumsum(Df * P, axis=0)))", "    ca = np.hstack((np.zeros((1, cols)), np.cumsum(Df * P, axis=0)))",
+     "rescale: cumulative curve stacked along the wrong axis"),
+    ("C19", "break", ["C19-R3"], D, "    m = np.mean(data, axis=-1, keepdims=True)", "    m = np.mean(data, axis=0, keepdims=True)", "resample: mean along the wrong axis"),
     ("C19", "break", ["C19-R4"], P, "    ca = np.vstack((np.zeros((1, cols)), np.cumsum(Df * P, axis=0)))", "    ca = np.vstack((Df[:1] * P[:1], np.cumsum(Df * P, axis=0)))",
      "rescale: cumulative curve does not start from zero"),
     ("C19", "break", ["C19-R4"], P, "    psdoct = ms * (1 / (FU - FL).reshape(-1, 1))", "    psdoct = ms * (1 / np.diff(np.hstack((FL, FU[-1]))).reshape(-1, 1))",
